@@ -68,12 +68,12 @@ func (sig Signature) GetHexString() string {
 }
 
 func (sig *Signature) SetHexString(s string) error {
-	if len(s) < len(PREFIX) || s[:len(PREFIX)] != PREFIX {
-		return fmt.Errorf("arg failed")
+	b, err := decodeHexExact(s, SIGNATURE_LENGTH)
+	if err != nil {
+		sig.value = bn_curve.G1{}
+		return err
 	}
-	buf := s[len(PREFIX):]
-
-	return sig.Deserialize(common.Hex2Bytes(buf))
+	return sig.Deserialize(b)
 }
 
 func (sig *Signature) IsNil() bool {
